@@ -245,3 +245,18 @@ Proof.
   - assert (0 <= r)%Q by (apply Hu; apply in_combine_r in Hin; apply in_combine_r in Hin; exact Hin).
     unfold Qltb in Hlt. destruct (Qle_bool p r) eqn:E; [discriminate|]. destruct (Qlt_le_dec r p); [lra|]. apply Qle_bool_iff in q. congruence.
 Qed.
+
+(* ---- the proviso "same calls made" of beta_monotone is needed: a direction whose beta is 0 makes no call and consumes no random numbers, so raising
+   an EARLIER beta from 0 to a positive value shifts the random numbers of every later call (one shared stream, one call per executed direction) *)
+Definition net_le_weak (n n' : netw) : Prop := n_edges n = n_edges n' /\ (n_b0 n <= n_b0 n')%Q /\ (n_b1 n <= n_b1 n')%Q.
+Lemma beta_monotone_needs_same_calls : exists rt rs nets nets' rands t s i,
+  Forall2 net_le_weak nets nets' /\ In (EvHit t s, i) (all_events rt rs nets rands) /\ ~ In (EvHit t s, i) (all_events rt rs nets' rands).
+Proof.
+  exists [V 1; V 1; V 1; V 1], [V 1; V 1; V 1; V 1],
+         [mkNet [mkEdge 0 1 1] 0 0; mkNet [mkEdge 2 3 1] (1 # 2) 0], [mkNet [mkEdge 0 1 1] (1 # 1000) 0; mkNet [mkEdge 2 3 1] (1 # 2) 0],
+         [[1 # 10]; [9 # 10]]%Q, 3%nat, 2%nat, 1%nat.
+  split; [|split].
+  - repeat constructor; cbn; try reflexivity; try (unfold Qle; cbn; lia).
+  - vm_compute. left. reflexivity.
+  - vm_compute. intros [H|[H|[]]]; discriminate.
+Qed.
